@@ -74,6 +74,15 @@ class FetcherStream(Stream):
                 probs.append(f"error path: fetch_next call #{i} raised {r[1]}"
                              + ("" if both_failed else " although one of the two streams never failed"))
                 break
+        if case["kind"] == "transient_errors":
+            # call i consumes primary item i (a sample or a raised, non-stop ReceiverError) while the primary
+            # stream is open: a VALID primary sample must be returned as is, also after a transient error
+            for i, r in enumerate(obs["res"][: len(case["prim"]["items"])]):
+                it = case["prim"]["items"][i]
+                if it != "E" and _valid(it[1]) and r != ["r", it[0], it[1]]:
+                    probs.append(f"return: valid primary sample {it} (fetch #{i}, after a transient receiver error earlier in "
+                                 f"the stream) was not used, got {r}")
+                    break
         if case["kind"] not in ("grid", "prim_gaps", "fb_gaps"):
             return [{"what": p, "finding": None} for p in probs]
         prim = case["prim"]["items"]
@@ -299,26 +308,32 @@ def val_of(metric, cid, tick):
     return 1000 * cid + tick if metric == "ACTIVE_POWER" else -(10 * cid + tick) - 50000
 
 
-def _run_generated(I, cls, case, fail_id):
-    """Drive one generated formula end to end: every requested (component, metric) stream of the
-    channel registry is fed one sample per tick; the meter [fail_id] delivers None from T_FAIL on.
-    Streams requested later (the lazily started fallback formula) are fed from then on."""
+def _run_pool(I, case, fail_id):
+    """Production construction path, end to end: ONE FormulaEnginePool (as microgrid.grid() holds it) hands
+    out the grid power AND the grid reactive power engine with its default configuration; both run at the
+    same time.  Every requested (component, metric) stream of the channel registry is fed one sample per
+    tick; the meter [fail_id] delivers None (both metrics) from T_FAIL on.  Streams requested later (the
+    lazily started fallback formulas) are fed from then on."""
     import asyncio
     import async_solipsism
     from datetime import datetime, timedelta, timezone
     from frequenz.quantities import Quantity
+    from frequenz.sdk.timeseries.formula_engine._formula_engine_pool import FormulaEnginePool
     FG = I.FG
     tz = timezone(timedelta(hours=case.get("tz_hours", 0)))
-    t0 = datetime(2023, 1, 1, tzinfo=timezone.utc).astimezone(tz)
     utc0 = datetime(2023, 1, 1, tzinfo=timezone.utc)
+    t0 = utc0.astimezone(tz)
     res = {}
 
     async def main():
         reg = I.ChannelRegistry(name="r")
         ch = I.Broadcast(name="req")
         req_rx = ch.new_receiver(limit=1000)
-        eng = cls("ns", reg, ch.new_sender(), FG.FormulaGeneratorConfig(allow_fallback=True)).generate()
-        out_rx = eng.new_receiver(max_size=100000)
+        pool = FormulaEnginePool("grid-pool", reg, ch.new_sender())
+        engines = {"grid": pool.from_power_formula_generator("grid_power", FG.GridPowerFormula),
+                   "grid_q": pool.from_reactive_power_formula_generator("grid-reactive_power", FG.GridReactivePowerFormula)}
+        order = ["grid", "grid_q"] if case.get("tz_hours", 0) % 2 == 0 else ["grid_q", "grid"]
+        out_rx = {k: engines[k].new_receiver(max_size=100000) for k in order}
         senders = {}
 
         async def registrar():
@@ -334,13 +349,14 @@ def _run_generated(I, cls, case, fail_id):
                 v = None if (cid == fail_id and tick >= T_FAIL) else Quantity(float(val_of(metric, cid, tick)))
                 await snd.send(I.Sample(t0 + timedelta(seconds=tick), v))
             await asyncio.sleep(1.0)
-        out = []
-        while len(out_rx._q):  # pylint: disable=protected-access
-            m = out_rx.consume() if await out_rx.ready() else None
-            us = (m.timestamp - utc0) // timedelta(microseconds=1)
-            out.append([us / 1e6 if us % 1000000 else us // 1000000,
-                        None if m.value is None else round(m.value.base_value)])
-        res["out"] = out
+        for kind, rx in out_rx.items():
+            out = []
+            while len(rx._q):  # pylint: disable=protected-access
+                m = rx.consume() if await rx.ready() else None
+                us = (m.timestamp - utc0) // timedelta(microseconds=1)
+                out.append([us / 1e6 if us % 1000000 else us // 1000000,
+                            None if m.value is None else round(m.value.base_value)])
+            res[kind] = {"out": out}
         res["requested"] = sorted([c, m] for c, m, _ in senders.values())
         for t in asyncio.all_tasks():
             if t is not asyncio.current_task():
@@ -393,9 +409,7 @@ def run_wiring(case):
             obs[kind] = runs
         fail = next((n["id"] for n in case["roots"] if homogeneous(n)), None)
         if fail is not None and case.get("e2e", True):
-            obs["e2e"] = {"fail": fail,
-                          "grid": _run_generated(I, FG.GridPowerFormula, case, fail),
-                          "grid_q": _run_generated(I, FG.GridReactivePowerFormula, case, fail)}
+            obs["e2e"] = {"fail": fail, **_run_pool(I, case, fail)}
     finally:
         I.cm._CONNECTION_MANAGER = None                            # pylint: disable=protected-access
     return obs
